@@ -17,11 +17,11 @@ package main
 //                   that stops reading must not park goroutines serving others forever)
 
 import (
-	"os"
-	"sort"
 	"fmt"
 	"go/token"
 	"go/types"
+	"os"
+	"sort"
 	"strings"
 
 	"golang.org/x/tools/go/ssa"
@@ -102,6 +102,7 @@ func c17Scope(p *Prog) func(fn *ssa.Function) bool {
 }
 
 func checkC17(p *Prog, r *Report) {
+	requireRecognisedDispatch(p)
 	r.NotCov = append(r.NotCov,
 		"memory exhaustion (no frame size limit is enforced; out of scope per the property), the generated scanner's internals, panics inside library decoders",
 		"liveness beyond the structural rules here (progress of the retry loop is C01/C05)")
@@ -128,6 +129,13 @@ func checkC17(p *Prog, r *Report) {
 	boundedRecursion(p, r, "C17.bounded-recursion")
 	rr := requestRoles(p)
 	c05Progress17(p, r, rr)
+	// a pooled connection whose set-up fails is closed: a client can make the proxy try again and
+	// again (USE of a keyspace that does not exist), and every leaked socket and its two goroutines
+	// stay until the process runs out of descriptors and stops accepting anybody
+	r.Rule("C17.failed-connect-closed", "every path of the connection pool's connect that returns an error after the connection was opened closes that connection (the clean-up must see the connection even when the results are set to nil, err)")
+	connClosedOnError(p, r, "C17.failed-connect-closed", p.Named("proxycore", "connPool"), "connect returns an error at %s but leaves the connection it opened open (socket, reader and writer goroutine): a client can repeat the failing set-up at will")
+	// a backend endpoint that stays silent in the TLS handshake must not park the control loop
+	r.borrow("C16", "C17", func() { connectBounded(p, r, "C16.connect-bounded") })
 }
 
 // the host walk cannot spin (shared with C01/C05)
@@ -367,18 +375,19 @@ func c17NilStore(p *Prog, r *Report) {
 	r.Rule(rule, "a pool is stored into Session.pools only if it was created successfully: the result of connectPool under err == nil, or of the constructor that cannot fail (later loads dereference it without a test)")
 	poolsF := p.Field("proxycore", "Session", "pools")
 	n := 0
-	for _, fn := range p.ScopedFuncs("proxycore") {
-		eachCall(fn, func(c ssa.CallInstruction) {
-			if !(callIsMethod(c, "sync", "Map", "Store") || callIsMethod(c, "sync", "Map", "LoadOrStore")) {
-				return
+	for _, op := range p.syncMapOps(poolsF, p.ScopedFuncs("proxycore")) {
+		{
+			if op.Kind != "Store" && op.Kind != "LoadOrStore" {
+				continue
 			}
-			fa, ok := c.Common().Args[0].(*ssa.FieldAddr)
-			if !ok || fieldOfAddr(fa) != poolsF {
-				return
-			}
+			c, fn := op.Call, op.Fn
 			n++
+			if op.Val == nil {
+				r.bad(rule, fmt.Sprintf("Session.pools store #%d@%s", n, fn.Name()), p.Pos(c.Pos()), "stored pool of unknown origin")
+				continue
+			}
 			var bad []string
-			for _, o := range origins(c.Common().Args[2]) {
+			for _, o := range origins(op.Val) {
 				switch x := o.(type) {
 				case *ssa.Call:
 					callee := x.Call.StaticCallee()
@@ -412,7 +421,7 @@ func c17NilStore(p *Prog, r *Report) {
 				}
 			}
 			r.check(len(bad) == 0, rule, fmt.Sprintf("Session.pools store #%d@%s", n, fn.Name()), p.Pos(c.Pos()), "", strings.Join(dedupe(bad), " || "))
-		})
+		}
 	}
 	if n < 2 {
 		fatalf("rule %s: only %d stores into Session.pools found (2 confirmed by hand)", rule, n)
@@ -536,7 +545,7 @@ func c17OffenderOnly(p *Prog, r *Report) {
 				}
 			})
 			if !returned {
-				rb = append(rb, p.Pos(c.Pos())+": decode error of "+cm.Method.Name()+" is not returned (the connection would continue with an undecoded frame)")
+				rb = append(rb, p.Pos(c.Pos())+": decode error of "+callDesc(c)+" is not returned (the connection would continue with an undecoded frame)")
 			}
 		}
 	})
@@ -545,9 +554,184 @@ func c17OffenderOnly(p *Prog, r *Report) {
 
 // frozen table of blocking sends that are safe, keyed by function:channel-field
 var blockingSendAllow = map[string]string{
-	"Cluster:chan *Frame":         "only the control connection's reader sends here and Cluster.stayConnected always returns to its select; no client-serving goroutine is involved",
-	"pendingRequests:chan int16":  "the free list has capacity max and ids are conserved (C02.stream-alloc): the send never blocks (filling it at construction and giving an id back)",
-	"runConfig:local chan error":  "reports a server's terminal error to Run, which is ranging over the channel until both servers have ended",
+	"Cluster:chan *Frame":        "only the control connection's reader sends here and Cluster.stayConnected always returns to its select; no client-serving goroutine is involved",
+	"pendingRequests:chan int16": "the free list has capacity max and ids are conserved (C02.stream-alloc): the send never blocks (filling it at construction and giving an id back)",
+}
+
+// drainedByMain: the channel of a send is made, and ranged over until it is closed, by code that
+// runs synchronously below proxy.Run (the process's main function); its senders report a
+// server's terminal error to Run.  A sender parked there has no connection left to serve, and
+// the process ends when Run returns.  The channel is identified by where it is made (a local
+// shared with closures, or a field of a helper object), not by names.
+func drainedByMain(p *Prog, ch ssa.Value) bool {
+	run := p.FuncOpt("proxy", "Run")
+	if run == nil {
+		return false
+	}
+	id := chanIdentity(p, ch)
+	if id == nil {
+		return false
+	}
+	mk, ok := id.(*ssa.MakeChan)
+	var fld *types.Var
+	if !ok {
+		fld, _ = id.(*types.Var)
+		if fld == nil {
+			return false
+		}
+		// the one place the field is given a channel
+		n := 0
+		for _, fn := range p.ScopedFuncs("proxy", "proxycore") {
+			eachInstr(fn, func(in ssa.Instruction) {
+				if st, ok := in.(*ssa.Store); ok {
+					if fa, ok := st.Addr.(*ssa.FieldAddr); ok && fieldOfAddr(fa) == fld {
+						n++
+						mk, _ = st.Val.(*ssa.MakeChan)
+					}
+				}
+			})
+		}
+		if n != 1 || mk == nil {
+			return false
+		}
+	}
+	if !syncBelow(p, rootFn(mk.Parent()), run, 3) {
+		return false
+	}
+	// ranged over (received from until closed) by code that runs synchronously below Run
+	ranged := false
+	for _, fn := range p.ScopedFuncs("proxy", "proxycore") {
+		eachInstr(fn, func(in ssa.Instruction) {
+			rv, ok := in.(*ssa.UnOp)
+			if !ok || rv.Op != token.ARROW || !rv.CommaOk || !strings.HasPrefix(rv.Block().Comment, "rangechan") {
+				return
+			}
+			rid := chanIdentity(p, rv.X)
+			same := rid != nil && (rid == id || (fld != nil && rid == interface{}(fld)))
+			if same && fn.Parent() == nil && syncBelow(p, fn, run, 4) {
+				ranged = true
+			}
+		})
+	}
+	return ranged
+}
+
+// syncBelow: fn is root or is reached from it by plain (synchronous) static calls only.
+func syncBelow(p *Prog, fn, root *ssa.Function, depth int) bool {
+	if fn == root {
+		return true
+	}
+	if depth <= 0 || fn.Parent() != nil {
+		return false
+	}
+	sites, only := p.staticCallSites(fn)
+	if !only || len(sites) == 0 {
+		return false
+	}
+	for _, s := range sites {
+		if _, isCall := s.(*ssa.Call); !isCall {
+			return false
+		}
+		if !syncBelow(p, s.Parent(), root, depth-1) {
+			return false
+		}
+	}
+	return true
+}
+
+// chanIdentity: what a channel operand stands for: the struct field it is loaded from, or the
+// make(chan) it was created by when it is a local (possibly captured by closures).
+func chanIdentity(p *Prog, v ssa.Value) interface{} {
+	for i := 0; i < 6; i++ {
+		switch x := v.(type) {
+		case *ssa.MakeChan:
+			return x
+		case *ssa.ChangeType:
+			v = x.X
+			continue
+		case *ssa.UnOp:
+			if x.Op != token.MUL {
+				return nil
+			}
+			switch a := x.X.(type) {
+			case *ssa.FieldAddr:
+				return fieldOfAddr(a)
+			case *ssa.Alloc:
+				var val ssa.Value
+				n := 0
+				for _, ref := range *a.Referrers() {
+					if st, ok := ref.(*ssa.Store); ok && st.Addr == ssa.Value(a) {
+						n++
+						val = st.Val
+					}
+				}
+				if n != 1 {
+					return nil
+				}
+				v = val
+				continue
+			case *ssa.FreeVar:
+				b := freeVarBinding(a)
+				if b == nil {
+					return nil
+				}
+				// the captured variable itself: look at what is stored in it
+				if al, ok := b.(*ssa.Alloc); ok {
+					var val ssa.Value
+					n := 0
+					for _, ref := range *al.Referrers() {
+						if st, ok := ref.(*ssa.Store); ok && st.Addr == ssa.Value(al) {
+							n++
+							val = st.Val
+						}
+					}
+					if n != 1 {
+						return nil
+					}
+					v = val
+					continue
+				}
+				return nil
+			}
+			return nil
+		case *ssa.FreeVar:
+			b := freeVarBinding(x)
+			if b == nil {
+				return nil
+			}
+			v = b
+			continue
+		}
+		return nil
+	}
+	return nil
+}
+
+// freeVarBinding: the value bound to a free variable where its closure is made (nil unless there
+// is exactly one such place).
+func freeVarBinding(fv *ssa.FreeVar) ssa.Value {
+	fn := fv.Parent()
+	if fn.Parent() == nil {
+		return nil
+	}
+	idx := -1
+	for i, x := range fn.FreeVars {
+		if x == fv {
+			idx = i
+		}
+	}
+	var out ssa.Value
+	n := 0
+	eachInstr(fn.Parent(), func(in ssa.Instruction) {
+		if mc, ok := in.(*ssa.MakeClosure); ok && mc.Fn == ssa.Value(fn) && idx >= 0 && idx < len(mc.Bindings) {
+			out = mc.Bindings[idx]
+			n++
+		}
+	})
+	if n != 1 {
+		return nil
+	}
+	return out
 }
 
 // blockingSendKey identifies a blocking send by the type that owns the sending code and the
@@ -595,6 +779,8 @@ func c17BlockingSend(p *Prog, r *Report) {
 				}
 				if reason, ok := blockingSendAllow[akey]; ok {
 					r.ok(rule, key, p.Pos(x.Pos()), "reviewed: "+reason)
+				} else if drainedByMain(p, x.Chan) {
+					r.ok(rule, key, p.Pos(x.Pos()), "reports a server's terminal error to Run, which made the channel and ranges over it until it is closed; the sender has nothing left to serve")
 				} else {
 					r.bad(rule, key, p.Pos(x.Pos()), "unconditional blocking send: if the receiving goroutine is gone or stalled (peer stopped reading, connection closed) the sender is parked forever")
 				}
@@ -801,7 +987,6 @@ func c17CrossWrites(p *Prog, r *Report) {
 	r.count("cross_connection_write_sites", n)
 }
 
-
 // c17DecodeGuard: the library's value codecs panic on some malformed values (a collection with a
 // negative element count reaches reflect.MakeSlice); values and their declared types come from
 // the other end of a connection.
@@ -873,7 +1058,6 @@ func c17DecodeGuard(p *Prog, r *Report) {
 	r.check(len(bad) == 0 && n > 2, rule, "library decode sites", "", fmt.Sprintf("%d site(s), each under a recover", n), strings.Join(dedupe(bad), " || "))
 }
 
-
 // c17ListenServiced: Cluster.Listen hands a new listener to the control loop with a blocking send,
 // and its callers hold the proxy's session lock.  Every state in which the loop waits must take it.
 func c17ListenServiced(p *Prog, r *Report) {
@@ -904,6 +1088,7 @@ func c17ListenServiced(p *Prog, r *Report) {
 			scope = append(scope, h)
 		}
 	}
+	scope = append(scope, keeperFuncs(p, loop, keeperType(p, loop))...) // loop state kept in a struct: its methods hold the waits
 	for _, f := range scope {
 		eachInstr(f, func(in ssa.Instruction) {
 			sel, ok := in.(*ssa.Select)
@@ -937,7 +1122,6 @@ func c17ListenServiced(p *Prog, r *Report) {
 	}
 	r.check(len(bad) == 0 && n >= 2, rule, "Cluster.stayConnected", p.Pos(loop.Pos()), fmt.Sprintf("%d waits of the loop, each takes new listeners", n), strings.Join(dedupe(bad), " || "))
 }
-
 
 // c17AcceptLoop: the loop that accepts client connections serves every client; nothing in it may
 // wait for one peer.
